@@ -15,12 +15,10 @@ ProtoSerializer / Metadata / readProtoFrame / Client.unmarshalProtoResponse / Pr
 / FramePool against the model (tools/props/c23.py), and the constants `defaultMaxFrameSize`,
 `minBucketShift`, `maxBucketShift`, `numBuckets` regenerated from the source (`Gen.C23`).
 
-Result: the full statement is REFUTED by one corner (finding C23-F1): the client's format
-heuristic (`nameLen < 256` in `unmarshalProtoResponse`) does not recognise a metadata-format frame
-whose type name has 256 bytes or more; the frame is then handed to the legacy parser, which fails
-with "unknown message type".  Everything else is proved (`C23_partial`): the server side for all
-names, the client side for names shorter than 256 bytes (all legacy frames), the stream reader,
-totality / memory safety of every decoder, and the allocation limit.
+Result: the full statement holds (`C23_holds`).  History: finding C23-F1 — the client's format
+heuristic required `nameLen < 256` and handed metadata-format frames with longer type names to the
+legacy parser ("unknown message type"); repaired in /repo by fb98906, after which the model dropped the
+conjunct and the refutation became the regression theorem `client_long_name_ok`.
 -/
 import GoaktVerif.Lemmas.C23Frame
 import GoaktVerif.Lemmas.C23Pool
@@ -295,11 +293,10 @@ theorem detect_legacy (c : Codec) (max : Nat) (name payload : Bytes) (h : Within
   rw [unmarshalWithMeta_eq_finish, frameMeta_legacyFrame hn (by omega) (by omega)]
   rfl
 
-/-- C23 round trip, client side (`unmarshalProtoResponse`): every legacy frame, and every
-    metadata-format frame whose type name is shorter than 256 bytes -/
+/-- C23 round trip, client side (`unmarshalProtoResponse`): every legacy frame and every
+    metadata-format frame, whatever the length of the type name -/
 theorem roundtrip_client (c : Codec) (max : Nat) (e : Enc) (name payload : Bytes)
-    (h : WithinLimits max e name payload) (hk : Knows c name payload)
-    (hshort : e = none ∨ name.length < 256) :
+    (h : WithinLimits max e name payload) (hk : Knows c name payload) :
     clientDecode c (encFrame e name payload) = .ok (expected e name payload) := by
   obtain ⟨a, n', hn, ha⟩ := validName_cons h.nameOK
   have hsz := h.sizeOK
@@ -314,59 +311,19 @@ theorem roundtrip_client (c : Codec) (max : Nat) (e : Enc) (name payload : Bytes
     simp only [Bool.false_eq_true, if_false]
     exact hp
   | some md =>
-    have hs : name.length < 256 := by
-      rcases hshort with h' | h'
-      · cases h'
-      · exact h'
     simp only [encFrame, metaFrame_length] at hsz
     have hpos : 0 < name.length := by rw [hn]; simp
     have := roundtrip_plain c max (some md) name payload h hk
     simp only [encFrame] at this ⊢
     rw [clientDecode_eq, clientTriesMeta_metaFrame name payload _ (by omega)]
-    simp only [hpos, hs, and_self, decide_true, if_true, this]
+    simp only [hpos, decide_true, if_true, this]
 
-/-- finding C23-F1: a metadata-format frame whose type name has 256 bytes or more is NOT decoded by
-    the client; with a registry that only knows well-formed names the result is "unknown message type" -/
-theorem client_long_name (c : Codec) (name payload mb : Bytes)
-    (hreg : ∀ n, c.reg n = true → Spec.C23.validName n = true)
-    (hlong : 256 ≤ name.length) (hmb : mb.length < detectLimit)
-    (htot : 12 + name.length + mb.length + payload.length < 2 ^ 32) :
-    clientDecode c (metaFrame name payload mb) = .error .unknownType := by
-  unfold detectLimit at hmb
-  rw [clientDecode_eq, clientTriesMeta_metaFrame name payload mb htot]
-  have : ¬ (0 < name.length ∧ name.length < 256) := by omega
-  simp only [this, decide_false, Bool.false_eq_true, if_false]
-  -- the legacy parser takes bytes 8 .. 8+nameLen as the name: they start with the metaLen field
-  have hlen := metaFrame_length name payload mb
-  have r0 : u32At (metaFrame name payload mb) 0 = .ok (4 + 4 + name.length + 4 + mb.length + payload.length) :=
-    u32At_of_eq (a := []) (rest := be32 name.length ++ (be32 mb.length ++ (name ++ (mb ++ payload))))
-      (by simp only [metaFrame, List.nil_append]) rfl (by omega)
-  have r4 : u32At (metaFrame name payload mb) 4 = .ok name.length :=
-    u32At_of_eq (a := be32 (4 + 4 + name.length + 4 + mb.length + payload.length))
-      (rest := be32 mb.length ++ (name ++ (mb ++ payload)))
-      (by simp only [metaFrame]) rfl (by omega)
-  have hdrop : (metaFrame name payload mb).drop 8 = be32 mb.length ++ (name ++ (mb ++ payload)) :=
-    drop_of_eq (a := be32 (4 + 4 + name.length + 4 + mb.length + payload.length) ++ be32 name.length)
-      (by simp only [metaFrame, List.append_assoc]) (by simp only [List.length_append, be32_length])
-  unfold unmarshal
-  rw [if_neg (by omega)]
-  simp only [r0]
-  rw [if_neg (by omega)]
-  simp only [r4]
-  rw [if_neg (by omega), slice_of_le (by omega) (by omega), hdrop]
-  simp only []
-  have hbad : c.reg (List.take (8 + name.length - 8) (be32 mb.length ++ (name ++ (mb ++ payload)))) = false := by
-    cases hr : c.reg (List.take (8 + name.length - 8) (be32 mb.length ++ (name ++ (mb ++ payload)))) with
-    | false => rfl
-    | true =>
-      exfalso
-      have hv := hreg _ hr
-      have e8 : 8 + name.length - 8 = (name.length - 1) + 1 := by omega
-      rw [e8] at hv
-      simp only [be32, List.cons_append, List.take_succ_cons, Spec.C23.validName, Spec.C23.asciiLetter,
-        UInt8.toNat_ofNat', Bool.or_eq_true, Bool.and_eq_true, decide_eq_true_eq] at hv
-      omega
-  simp only [hbad, Bool.not_false, if_true]
+/-- regression for finding C23-F1 (fixed by fb98906): a metadata-format frame whose type name has 256
+    bytes or more is decoded by the client like any other -/
+theorem client_long_name_ok (c : Codec) (max : Nat) (md : Option (Headers × Int)) (name payload : Bytes)
+    (_hlong : 256 ≤ name.length) (h : WithinLimits max (some md) name payload) (hk : Knows c name payload) :
+    clientDecode c (metaFrame name payload (mdBytes md)) = .ok (expected (some md) name payload) :=
+  roundtrip_client c max (some md) name payload h hk
 
 /-! ## streams: concatenation -/
 
@@ -429,17 +386,17 @@ theorem concat_server (c : Codec) (max : Nat) (msgs : List (Enc × Bytes × Byte
     rw [hrest]
 
 /-- C23_concat, client: the `n` responses of a batch (legacy frames, which is what the server
-    writes, or metadata frames with short names) are decoded one by one, in order -/
+    writes, or metadata frames) are decoded one by one, in order -/
 theorem concat_client (c : Codec) (max : Nat) (msgs : List (Enc × Bytes × Bytes)) (rest : Bytes)
-    (h : ∀ m ∈ msgs, WithinLimits max m.1 m.2.1 m.2.2 ∧ Knows c m.2.1 m.2.2 ∧ (m.1 = none ∨ m.2.1.length < 256)) :
+    (h : ∀ m ∈ msgs, WithinLimits max m.1 m.2.1 m.2.2 ∧ Knows c m.2.1 m.2.2) :
     clientReadN c max msgs.length ((frames msgs).flatten ++ rest) = .ok (msgs.map fun m => expected m.1 m.2.1 m.2.2) := by
   induction msgs with
   | nil => simp [clientReadN, frames]
   | cons m tl ih =>
-    obtain ⟨hw, hk, hs⟩ := h m (by simp)
+    obtain ⟨hw, hk⟩ := h m (by simp)
     have htl := ih (fun g hg => h g (by simp [hg]))
     have hf := wellFramed_encFrame hw
-    have hd := roundtrip_client c max m.1 m.2.1 m.2.2 hw hk hs
+    have hd := roundtrip_client c max m.1 m.2.1 m.2.2 hw hk
     simp only [List.length_cons, clientReadN, frames, List.map_cons, List.flatten_cons, List.append_assoc]
     rw [readFrame_append _ _ hf]
     simp only [hd]
@@ -494,7 +451,7 @@ theorem echo_pipeline (c : Codec) (max : Nat) (msgs : List (Enc × Bytes × Byte
       simp only [List.mem_map] at hm
       obtain ⟨x, hx, rfl⟩ := hm
       obtain ⟨_, b, k⟩ := h x hx
-      exact ⟨b, k, Or.inl rfl⟩)
+      exact ⟨b, k⟩)
     simpa [frames, encFrame, expected, Function.comp_def] using this
 
 /-! ## totality, memory safety, allocation limit -/
@@ -578,10 +535,10 @@ def RoundTripServer : Prop :=
     serverDecode c (encFrame e name payload) = .ok (expected e name payload) ∧
     serverLoop c max (encFrame e name payload) = [expected e name payload]
 
-/-- round trip at the client; `guard` restricts the (format, name) pairs claimed -/
-def RoundTripClient (guard : Enc → Bytes → Prop) : Prop :=
+/-- round trip at the client (`unmarshalProtoResponse`) for every message, name and format -/
+def RoundTripClient : Prop :=
   ∀ (c : Codec) (max : Nat) (e : Enc) (name payload : Bytes),
-    WithinLimits max e name payload → Knows c name payload → guard e name →
+    WithinLimits max e name payload → Knows c name payload →
     clientDecode c (encFrame e name payload) = .ok (expected e name payload)
 
 def Concat : Prop :=
@@ -610,14 +567,11 @@ def DeadlineTolerance : Prop :=
     deadlineOf tr (remainingOf d ts) = if d = ts then tr - 1 else d + (tr - ts)) ∧
   (∀ ts tr : Int, deadlineOf tr (remainingOf 0 ts) = 0)
 
-/-- the full property: both receivers decode every encoded frame, whatever the format -/
+/-- the full property: both receivers decode every encoded frame, whatever the format; streams are
+    read frame by frame in order; every decoder is total and memory safe within the frame limit;
+    the deadline survives the transfer up to the clock difference -/
 def C23_full : Prop :=
-  RoundTripServer ∧ RoundTripClient (fun _ _ => True) ∧ Concat ∧ Safe ∧ DeadlineTolerance
-
-/-- the strongest true statement: the client claim is restricted to legacy frames and to
-    metadata frames whose type name is shorter than 256 bytes (what C23-F1 excludes) -/
-def C23_partial_stmt : Prop :=
-  RoundTripServer ∧ RoundTripClient (fun e name => e = none ∨ name.length < 256) ∧ Concat ∧ Safe ∧ DeadlineTolerance
+  RoundTripServer ∧ RoundTripClient ∧ Concat ∧ Safe ∧ DeadlineTolerance
 
 theorem roundTripServer_holds : RoundTripServer := by
   intro c max e name payload hw hk
@@ -633,8 +587,7 @@ theorem concat_holds : Concat := by
     intro m hm
     simp only [List.mem_map] at hm
     obtain ⟨x, hx, rfl⟩ := hm
-    obtain ⟨a, b⟩ := h x hx
-    exact ⟨a, b, Or.inl rfl⟩)
+    exact h x hx)
   simpa [frames, encFrame, expected, Function.comp_def] using this
 
 theorem safe_holds : Safe := by
@@ -646,32 +599,7 @@ theorem deadline_holds : DeadlineTolerance :=
   ⟨fun d now => ⟨(remainingOf_range d now).1, (remainingOf_range d now).2, remainingOf_eq_zero d now⟩,
    deadline_transfer, deadline_none⟩
 
-theorem C23_partial : C23_partial_stmt :=
-  ⟨roundTripServer_holds, fun c max e name payload hw hk hg => roundtrip_client c max e name payload hw hk hg,
-   concat_holds, safe_holds, deadline_holds⟩
-
-/-- witness of C23-F1: the 256-byte type name `AAAA…A`, empty payload, `MarshalBinaryWithMetadata`
-    with a nil metadata, a registry that knows exactly the well-formed names -/
-def witnessName : Bytes := List.replicate 256 65
-
-theorem C23_refuted : ¬ C23_full := by
-  intro h
-  obtain ⟨_, hc, _⟩ := h
-  let c : Codec := ⟨fun n => Spec.C23.validName n, fun _ _ => true⟩
-  have hw : WithinLimits (2 ^ 24) (some none) witnessName [] := by
-    refine ⟨by decide, ?_, by decide, ?_⟩
-    · simp only [encFrame, metaFrame_length, mdBytes, witnessName, List.length_replicate, List.length_nil]; decide
-    · intro m hm
-      simp only [Option.some.injEq] at hm
-      subst hm
-      exact ⟨fun hs r h => (by cases h), fun hs r h => (by cases h)⟩
-  have hk : Knows c witnessName [] := ⟨by decide, rfl⟩
-  have h1 := hc c (2 ^ 24) (some none) witnessName [] hw hk trivial
-  have h2 := client_long_name c witnessName [] [] (fun n hn => hn)
-    (by simp only [witnessName, List.length_replicate]; omega) (by decide)
-    (by simp only [witnessName, List.length_replicate, List.length_nil]; omega)
-  simp only [encFrame, mdBytes] at h1
-  rw [h2] at h1
-  cases h1
+theorem C23_holds : C23_full :=
+  ⟨roundTripServer_holds, roundtrip_client, concat_holds, safe_holds, deadline_holds⟩
 
 end GoaktVerif.C23
